@@ -396,6 +396,9 @@ class Lexer:
         if ch == "*":
             if self._current() == "*":
                 self._advance()
+                if self._current() == "=":
+                    self._advance()
+                    return Token(TokenType.STARSTAR_ASSIGN, "**=", line, column)
                 return Token(TokenType.STARSTAR, "**", line, column)
             if self._current() == "=":
                 self._advance()
